@@ -979,3 +979,152 @@ func c06r6(rc *core.RC) {
 		rc.Unknown("module/panicking-assertions", token.NoPos, "found %d panicking interface assertions (confirmed: the two TextUnmarshaler sites)", n)
 	}
 }
+
+// ---- C06.R7 indexed writes into a made buffer are bounded inside the loop ----
+
+// For a local x := make([]byte, N) that is written at a position i which moves inside a loop
+// (x[i] = v, utf8.EncodeRune(x[i:], r), copy(x[i:], …)), the loop must contain a test relating
+// i to len(x)/cap(x) whose branch replaces x (growth) or leaves the function. Without it the
+// write position can pass the end of the buffer for inputs that expand (here: every malformed
+// byte of a quoted text becomes a three-byte U+FFFD), and the decoder panics.
+func c06r7(rc *core.RC) {
+	p := rc.P
+	n := 0
+	for _, short := range []string{"decoder", "encoder"} {
+		for _, fd := range p.Funcs(short) {
+			if fd.Body == nil {
+				continue
+			}
+			info := p.Info(fd)
+			made := map[types.Object]bool{}
+			ast.Inspect(fd.Body, func(m ast.Node) bool {
+				as, ok := m.(*ast.AssignStmt)
+				if !ok || len(as.Lhs) != 1 || len(as.Rhs) != 1 {
+					return true
+				}
+				if c, ok := core.Unparen(as.Rhs[0]).(*ast.CallExpr); ok && core.IsBuiltin(info, c, "make") {
+					if o := core.ObjOf(info, as.Lhs[0]); o != nil && o.Type().String() == "[]byte" {
+						if v, ok := o.(*types.Var); ok && !v.IsField() {
+							made[o] = true
+						}
+					}
+				}
+				return true
+			})
+			if len(made) == 0 {
+				continue
+			}
+			ast.Inspect(fd.Body, func(m ast.Node) bool {
+				loop, ok := m.(*ast.ForStmt)
+				if !ok {
+					return true
+				}
+				// positions that move in this loop
+				moves := map[types.Object]bool{}
+				ast.Inspect(loop.Body, func(k ast.Node) bool {
+					switch x := k.(type) {
+					case *ast.IncDecStmt:
+						if o := core.ObjOf(info, x.X); o != nil {
+							moves[o] = true
+						}
+					case *ast.AssignStmt:
+						if x.Tok == token.ADD_ASSIGN && len(x.Lhs) == 1 {
+							if o := core.ObjOf(info, x.Lhs[0]); o != nil {
+								moves[o] = true
+							}
+						}
+					}
+					return true
+				})
+				// writes x[i] = …, f(x[i:], …)
+				type site struct {
+					buf, idx types.Object
+					pos      token.Pos
+				}
+				var sites []site
+				add := func(x, i ast.Expr, pos token.Pos) {
+					bo, io := core.ObjOf(info, x), core.ObjOf(info, i)
+					if bo != nil && io != nil && made[bo] && moves[io] {
+						sites = append(sites, site{bo, io, pos})
+					}
+				}
+				ast.Inspect(loop.Body, func(k ast.Node) bool {
+					switch x := k.(type) {
+					case *ast.AssignStmt:
+						for _, l := range x.Lhs {
+							if ix, ok := core.Unparen(l).(*ast.IndexExpr); ok {
+								add(ix.X, ix.Index, ix.Pos())
+							}
+						}
+					case *ast.CallExpr:
+						cn := core.CalleeName(info, x)
+						if (cn == "utf8.EncodeRune" || core.IsBuiltin(info, x, "copy")) && len(x.Args) > 0 {
+							if sl, ok := core.Unparen(x.Args[0]).(*ast.SliceExpr); ok && sl.Low != nil {
+								add(sl.X, sl.Low, sl.Pos())
+							}
+						}
+					}
+					return true
+				})
+				done := map[string]bool{}
+				for _, s := range sites {
+					key := fmt.Sprintf("%s/bounded-write %s[%s]", p.FuncName(fd), s.buf.Name(), s.idx.Name())
+					if done[key] {
+						continue
+					}
+					done[key] = true
+					n++
+					rc.Touch(p.FuncName(fd))
+					// a capacity test in the loop: mentions idx and len(buf)/cap(buf); branch reassigns buf or returns
+					ok := false
+					ast.Inspect(loop.Body, func(k ast.Node) bool {
+						ifs, isIf := k.(*ast.IfStmt)
+						if !isIf || ok {
+							return true
+						}
+						hasIdx, hasLen := false, false
+						ast.Inspect(ifs.Cond, func(c ast.Node) bool {
+							switch x := c.(type) {
+							case *ast.Ident:
+								if info.Uses[x] == s.idx {
+									hasIdx = true
+								}
+							case *ast.CallExpr:
+								if (core.IsBuiltin(info, x, "len") || core.IsBuiltin(info, x, "cap")) && len(x.Args) == 1 && core.ObjOf(info, x.Args[0]) == s.buf {
+									hasLen = true
+								}
+							}
+							return true
+						})
+						if !hasIdx || !hasLen {
+							return true
+						}
+						ast.Inspect(ifs.Body, func(c ast.Node) bool {
+							switch x := c.(type) {
+							case *ast.ReturnStmt:
+								ok = true
+							case *ast.AssignStmt:
+								for _, l := range x.Lhs {
+									if core.ObjOf(info, l) == s.buf {
+										ok = true
+									}
+								}
+							}
+							return true
+						})
+						return true
+					})
+					if ok {
+						rc.OK(key, s.pos, "the loop compares %s with len(%s) and grows the buffer (or leaves) before writing", s.idx.Name(), s.buf.Name())
+					} else {
+						rc.Bad(key, s.pos, "%s is written at the moving position %s inside a loop that never compares %s with len(%s): if the output can outgrow the initial allocation (each malformed input byte becomes a three-byte U+FFFD) the write runs past the buffer and the call panics", s.buf.Name(), s.idx.Name(), s.idx.Name(), s.buf.Name())
+					}
+				}
+				return true
+			})
+		}
+	}
+	if n < 1 {
+		rc.Unknown("decoder/indexed-buffer-writes", token.NoPos, "no indexed write into a made buffer found (unquoteBytes expected)")
+	}
+}
